@@ -480,9 +480,14 @@ def _main_run(mod, a, seed):
             viol.append((i, case, v))
 
     done = run_cases(mod, cases, a.jobs, budget, on_result)
-    if errors:
+    if errors and not viol:
         raise HarnessError("%d case(s) failed in the harness; first: case %d: %s" % (
             len(errors), errors[0][0], errors[0][1]))
+    if errors:
+        # some cases broke the harness AND others reported violations (a library that hangs or crashes part of the time): the
+        # violations are reported if they replay; without a replayable one the run still ends as a harness error (below)
+        print("harness: %d case(s) failed in the harness beside %d violating case(s); first: case %d: %s" % (
+            len(errors), len(viol), errors[0][0], str(errors[0][1])[-300:]), flush=True)
 
     # corpus: regression traces of fixed findings must pass now
     corpus_checked = 0
@@ -558,6 +563,8 @@ def _main_run(mod, a, seed):
 
     if unconfirmed and exit_code != EXIT_VIOLATION:
         raise HarnessError("violation %s of case %d did not reproduce on re-execution" % unconfirmed[0])
+    if errors and exit_code != EXIT_VIOLATION:
+        raise HarnessError("%d case(s) failed in the harness; first: case %d: %s" % (len(errors), errors[0][0], errors[0][1]))
 
     wall = time.monotonic() - t0
     cov = {
